@@ -9,6 +9,9 @@ The scratch worktree is removed at the end."""
 import sys, os, json, subprocess, shutil, tempfile, time
 import xml.etree.ElementTree as ET
 
+VROOT = os.environ.get('VERIF_ROOT', '/verif')   # a private copy of /verif to run the checks in (seeded/ is always /verif's)
+
+
 def sh(cmd, **kw):
     return subprocess.run(cmd, shell=True, capture_output=True, text=True, **kw)
 
@@ -69,7 +72,7 @@ def main():
         checks = {}
         for p in props:
             for seed in (0,):
-                r = sh('cd /verif && VERIF_SEED=%d ./check %s --tier quick' % (seed, p), env=env_mut, timeout=3000)
+                r = sh('cd %s && VERIF_SEED=%%d ./check %%s --tier quick' % VROOT % (seed, p), env=env_mut, timeout=3000)
                 lines = [l for l in r.stdout.splitlines() if l.startswith(('VIOLATION', 'KNOWN-FINDING', 'INFRA'))]
                 checks['%s/quick/seed%d' % (p, seed)] = dict(exit=r.returncode, lines=lines[:6],
                                                              summary=r.stdout.strip().splitlines()[-1:] )
